@@ -487,148 +487,189 @@ Section Stmt.
       end.
 
 
+  (* ---- loop and block drivers, parametric in the sub-evaluators they run ---- *)
+
+  (* evalVarDeclareStmt, inner loop: every name receives its own duplicate *)
+  Fixpoint decl_names (fuel : nat) (c : bool) (names : list name) (obj : val) (st : state) : res unit :=
+    match names with
+    | [] => Ok tt st
+    | x :: nt =>
+      let! (obj', sa) := dup_res fuel st obj in
+      let! (_, sb) := vm_declare sa x obj' c in
+      decl_names fuel c nt obj' sb
+    end.
+
+  Fixpoint decl_pairs (fuel : nat) (pairs : list (bool * list name * expr)) (st : state) : res val :=
+    match pairs with
+    | [] => Ok VNull st
+    | (c, names, e) :: tl =>
+      let! (obj, s1) := ev st e in
+      let! (_, s2) := decl_names fuel c names obj s1 in
+      decl_pairs fuel tl s2
+    end.
+
+  (* what a loop does with the outcome of one pass: Some r = the loop ends with r, None = next pass *)
+  Definition after_pass (r : res val) : option (res val) * option state :=
+    match r with
+    | Ok _ s2 =>
+      match top_ret s2 with
+      | Some _ => (Some (Ok VNull s2), None)                   (* 输出 inside the body ends the loop *)
+      | None => (None, Some s2)
+      end
+    | Er e s2 =>
+      match is_loop_signal e with
+      | Some true => (None, Some s2)
+      | Some false => (Some (Ok VNull s2), None)
+      | None => (Some (Er e s2), None)
+      end
+    | Fuel => (Some Fuel, None)
+    | Crash w => (Some (Crash w), None)
+    end.
+
+  (* evalWhileLoopStmt; [j] bounds the number of passes *)
+  Fixpoint while_loop (body : state -> res val) (c : expr) (j : nat) (st : state) : res val :=
+    match j with
+    | O => Fuel
+    | S j' =>
+      let! (cv, s1) := ev st c in
+      match cv with
+      | VBool true =>
+        match after_pass (body s1) with
+        | (Some r, _) => r
+        | (None, Some s2) => while_loop body c j' s2
+        | (None, None) => Crash 8
+        end
+      | VBool false => Ok VNull s1
+      | _ => Er (ERun E_EXPRTYPE) s1
+      end
+    end.
+
+  (* evalBranchStmt: the 再如 branches in order, then 否则 *)
+  Fixpoint branch_others (blk : block -> state -> res val) (others : list (expr * block)) (els : option block)
+           (st : state) : res val :=
+    match others with
+    | [] =>
+      match els with
+      | Some b => let! (_, s2) := blk b st in Ok VNull s2
+      | None => Ok VNull st
+      end
+    | (ce, b) :: tl =>
+      let! (cv, s1) := ev st ce in
+      match cv with
+      | VBool true => let! (_, s2) := blk b s1 in Ok VNull s2
+      | VBool false => branch_others blk tl els s1
+      | _ => Er (ERun E_EXPRTYPE) s1
+      end
+    end.
+
+  (* evalIterateStmt: binding of the loop variables before a pass *)
+  Definition bind_loop_vars (names : list name) (key item : val) (st : state) : res unit :=
+    match names with
+    | [v] => vm_set st v item
+    | [kx; v] => let! (_, sx) := vm_set st kx key in vm_set sx v item
+    | _ => Ok tt st
+    end.
+
+  Fixpoint iter_items (body : state -> res val) (names : list name) (items : list (val * val)) (st : state) : res val :=
+    match items with
+    | [] => Ok VNull st
+    | (key, item) :: tl =>
+      match after_pass (let! (_, sa) := bind_loop_vars names key item st in body sa) with
+      | (Some r, _) => r
+      | (None, Some sb) => iter_items body names tl sb
+      | (None, None) => Crash 8
+      end
+    end.
+
+  Definition declare_loop_vars (names : list name) (st : state) : res unit :=
+    match names with
+    | [] => Ok tt st
+    | [v] => vm_declare st v VNull false
+    | [kx; v] => let! (_, sa) := vm_declare st kx VNull false in vm_declare sa v VNull false
+    | _ => Er (ERun E_MOST) st
+    end.
+
+  (* the (index, element) / (key, value) pairs a 遍历 visits, in order *)
+  Definition iter_pairs (st : state) (target : val) : option (list (val * val)) :=
+    match target with
+    | VList l =>
+      match hget st l with
+      | Some (CList items) => Some (combine (map (fun i => VNum (of_int (Z.of_nat i))) (seq 1 (length items))) items)
+      | _ => None
+      end
+    | VDict l =>
+      match hget st l with
+      | Some (CDict kvs) => Some (map (fun kv => (VStr (fst kv), snd kv)) kvs)
+      | _ => None
+      end
+    | _ => None
+    end.
+
+  Definition is_collection (v : val) : bool := match v with VList _ | VDict _ => true | _ => false end.
+  Definition is_def (s : stmt) : bool :=
+    match s with SFunc _ _ _ _ | SCtor _ _ _ _ | SClass _ _ _ => true | _ => false end.
+
+  (* the deferred EndScope of a block: runs whether the block ends normally or with an error *)
+  Definition scoped (r : res val) : res val :=
+    match r with
+    | Ok v s => Ok v (end_scope s)
+    | Er e s => Er e (end_scope s)
+    | r => r
+    end.
+
+  (* evalPureStmtBlock's loop over the statements; [last] is the value of the last executed statement *)
+  Fixpoint block_go (exec : state -> stmt -> res val) (b : block) (st : state) (last : val) : res val :=
+    match b with
+    | [] => Ok last st
+    | (line, s) :: tl =>
+      if is_def s then
+        match top_ret st with
+        | Some r => Ok r st
+        | None => block_go exec tl st last
+        end
+      else
+        let! (v, s1) := exec (set_line st line) s in
+        match top_ret s1 with
+        | Some r => Ok r s1
+        | None => block_go exec tl s1 v
+        end
+    end.
+
   Fixpoint exec_stmt (k : nat) (st : state) (s : stmt) {struct k} : res val :=
     match k with
     | O => Fuel
     | S k' =>
       match s with
-      | SDecl pairs =>
-        (fix pairs_go (pairs : list (bool * list name * expr)) (st : state) : res val :=
-           match pairs with
-           | [] => Ok VNull st
-           | (c, names, e) :: tl =>
-             let! (obj, s1) := ev st e in
-             let! (_, s2) :=
-                (fix names_go (names : list name) (obj : val) (st : state) : res unit :=
-                   match names with
-                   | [] => Ok tt st
-                   | x :: nt =>
-                     let! (obj', sa) := dup_res k' st obj in
-                     let! (_, sb) := vm_declare sa x obj' c in
-                     names_go nt obj' sb
-                   end) names obj s1 in
-             pairs_go tl s2
-           end) pairs st
-      | SWhile c body =>
-        (* evalWhileLoopStmt; the nested fuel bounds the number of passes *)
-        (fix wh (j : nat) (st : state) : res val :=
-           match j with
-           | O => Fuel
-           | S j' =>
-             let! (cv, s1) := ev st c in
-             match cv with
-             | VBool true =>
-               match exec_block k' s1 body with
-               | Ok _ s2 =>
-                 match top_ret s2 with
-                 | Some _ => Ok VNull s2                       (* 输出 inside the body ends the loop *)
-                 | None => wh j' s2
-                 end
-               | Er e s2 =>
-                 match is_loop_signal e with
-                 | Some true => wh j' s2
-                 | Some false => Ok VNull s2
-                 | None => Er e s2
-                 end
-               | Fuel => Fuel
-               | Crash w => Crash w
-               end
-             | VBool false => Ok VNull s1
-             | _ => Er (ERun E_EXPRTYPE) s1
-             end
-           end) k' st
+      | SDecl pairs => decl_pairs k' pairs st
+      | SWhile c body => while_loop (fun s1 => exec_block k' s1 body) c k' st
       | SBranch c t others els =>
         let! (cv, s1) := ev st c in
         match cv with
         | VBool true => let! (_, s2) := exec_block k' s1 t in Ok VNull s2
-        | VBool false =>
-          (fix others_go (others : list (expr * block)) (st : state) : res val :=
-             match others with
-             | [] =>
-               match els with
-               | Some b => let! (_, s2) := exec_block k' st b in Ok VNull s2
-               | None => Ok VNull st
-               end
-             | (ce, b) :: tl =>
-               let! (cv, s1) := ev st ce in
-               match cv with
-               | VBool true => let! (_, s2) := exec_block k' s1 b in Ok VNull s2
-               | VBool false => others_go tl s1
-               | _ => Er (ERun E_EXPRTYPE) s1
-               end
-             end) others s1
+        | VBool false => branch_others (fun b s => exec_block k' s b) others els s1
         | _ => Er (ERun E_EXPRTYPE) s1
         end
       | SIter e names body =>
-        let st0 := begin_scope st in
-        let r :=
-          let! (target, s1) := ev st0 e in
-          let! (_, s2) :=
-             match names with
-             | [] => Ok tt s1
-             | [v] => vm_declare s1 v VNull false
-             | [kx; v] => let! (_, sa) := vm_declare s1 kx VNull false in vm_declare sa v VNull false
-             | _ => Er (ERun E_MOST) s1
-             end in
-          let run_body (key item : val) (st : state) : res unit :=
-              let! (_, sa) :=
-                 match names with
-                 | [v] => vm_set st v item
-                 | [kx; v] => let! (_, sx) := vm_set st kx key in vm_set sx v item
-                 | _ => Ok tt st
-                 end in
-              let! (_, sb) := exec_block k' sa body in Ok tt sb in
-          let fix items_go (items : list (val * val)) (st : state) : res val :=
-              match items with
-              | [] => Ok VNull st
-              | (key, item) :: tl =>
-                match run_body key item st with
-                | Ok _ sb =>
-                  match top_ret sb with
-                  | Some _ => Ok VNull sb                      (* 输出 inside the body ends the loop *)
-                  | None => items_go tl sb
-                  end
-                | Er e sb =>
-                  match is_loop_signal e with
-                  | Some true => items_go tl sb
-                  | Some false => Ok VNull sb
-                  | None => Er e sb
-                  end
-                | Fuel => Fuel
-                | Crash w => Crash w
-                end
-              end in
-          match target with
-          | VList l =>
-            match hget s2 l with
-            | Some (CList items) =>
-              items_go (combine (map (fun i => VNum (of_int (Z.of_nat i))) (seq 1 (length items))) items) s2
-            | _ => Crash UNMODELLED
-            end
-          | VDict l =>
-            match hget s2 l with
-            | Some (CDict kvs) => items_go (map (fun kv => (VStr (fst kv), snd kv)) kvs) s2
-            | _ => Crash UNMODELLED
-            end
-          | _ => Er (ERun E_EXPRTYPE) s2
-          end in
-        match r with
-        | Ok v s => Ok v (end_scope s)
-        | Er e s => Er e (end_scope s)
-        | r => r
-        end
+        scoped
+          (let! (target, s1) := ev (begin_scope st) e in
+           let! (_, s2) := declare_loop_vars names s1 in
+           if is_collection target then
+             match iter_pairs s2 target with
+             | Some items => iter_items (fun sa => exec_block k' sa body) names items s2
+             | None => Crash UNMODELLED
+             end
+           else Er (ERun E_EXPRTYPE) s2)
       | SReturn e =>
         let! (v, s1) := ev st e in
         Ok v (set_ret s1 (Some v))
       | SBreak => Er EBreak st
       | SContinue => Er EContinue st
       | SThrow cls args =>
+        (* evalThrowExceptionStmt: the class must be a type (InvalidExceptionType otherwise); building the
+           exception value is ClassModel.Construct on the evaluated arguments, i.e. what 新建 does *)
         let! (cv, s1) := vm_find st cls in
         match cv with
-        | VClass c =>
-          let! (vs, s2) := evs args s1 in
-          let! (obj, s3) := construct k' s2 c vs in
-          Er (EExc obj) s3
+        | VClass _ => let! (obj, s2) := ev s1 (ENew cls args) in Er (EExc obj) s2
         | _ => Er (ERun E_EXCTYPE) s1
         end
       | SExpr e => ev st e
@@ -641,39 +682,75 @@ Section Stmt.
   with exec_block (k : nat) (st : state) (b : block) {struct k} : res val :=
     match k with
     | O => Fuel
-    | S k' =>
-      let st0 := begin_scope st in
-      let r :=
-        (fix go (b : block) (st : state) (last : val) : res val :=
-           match b with
-           | [] => Ok last st
-           | (line, s) :: tl =>
-             match s with
-             | SFunc _ _ _ _ | SCtor _ _ _ _ | SClass _ _ _ =>
-               match top_ret st with
-               | Some r => Ok r st
-               | None => go tl st last
-               end
-             | _ =>
-               let! (v, s1) := exec_stmt k' (set_line st line) s in
-               match top_ret s1 with
-               | Some r => Ok r s1
-               | None => go tl s1 v
-               end
-             end
-           end) b st0 VNull in
-      match r with
-      | Ok v s => Ok v (end_scope s)
-      | Er e s => Er e (end_scope s)
-      | r => r
+    | S k' => scoped (block_go (exec_stmt k') b (begin_scope st) VNull)
+    end.
+
+  (* handleExceptionSignal (repaired): which exception value an error denotes, if any *)
+  Definition exc_of_err (e : err) : option val :=
+    match e with
+    | EExc v => Some v
+    | ERun c => Some (VExc (MRun c))
+    | EGo m => Some (VExc m)
+    | _ => None
+    end.
+
+  Fixpoint find_handler (cn : name) (hs : catches) : option block :=
+    match hs with
+    | [] => None
+    | (hn, hb) :: tl => if hn =? cn then Some hb else find_handler cn tl
+    end.
+
+  (* the handler runs in an exception frame on top of the frames of the body that declared it;
+     frames left by the failed calls are dropped first; its 输出 value (空 if none) is the body's value *)
+  Definition run_handler (k' : nat) (s4 : state) (entry_depth : nat) (xv : val) (hb : block) : res val :=
+    let s5 := push_frame (unwind s4 entry_depth) 3 (Some xv) in
+    let! (_, s6) := exec_block k' s5 hb in
+    Ok (match top_ret s6 with Some r => r | None => VNull end) (pop_frame s6).
+
+  Definition handle_exception (k' : nat) (entry_depth : nat) (hs : catches) (e : err) (s4 : state) : res val :=
+    match exc_of_err e with
+    | None => Er e s4
+    | Some xv =>
+      match exc_class s4 xv with
+      | None => Er e s4
+      | Some cn =>
+        match find_handler cn hs with
+        | None => Er e s4
+        | Some hb => run_handler k' s4 entry_depth xv hb
+        end
       end
-    end
+    end.
+
+  (* 此 is declared for method calls (function frame with a receiver) *)
+  Definition declare_this (st0 : state) : state :=
+    match top_kind st0, top_this st0 with
+    | 2, Some this => match vm_declare st0 ID_THIS this true with Ok _ s => s | _ => st0 end
+    | _, _ => st0
+    end.
+
+  (* 结束循环 / 继续循环 outside any loop of the body: an error of the body, never a signal to the caller *)
+  Definition E_UNEXPECTED := 70.
+  Definition stray_signal (r : res val) : res val :=
+    match r with
+    | Er EBreak s | Er EContinue s => Er (ERun E_UNEXPECTED) s
+    | r => r
+    end.
+
+  (* evalExecBlock + evalStmtBlock + handleExceptionSignal *)
+  Definition exec_exec_block (k' : nat) (st : state) (fd : fundef) (args : list val) : res val :=
+    let entry_depth := length (stack st) in
+    scoped
+      (let s1 := declare_this (begin_scope st) in
+       if negb (length args =? length (fd_params fd))%nat then Er (ERun E_PARAMLEN) s1 else
+       let! (_, s2) := declare_params s1 (fd_params fd) args in
+       stray_signal
+         (match (let! (_, s3) := hoist s2 (fd_body fd) in exec_block k' s3 (fd_body fd)) with
+          | Er e s4 => handle_exception k' entry_depth (fd_catch fd) e s4
+          | r => r
+          end)).
 
   (* ClassModel.Construct *)
-  with construct (k : nat) (st : state) (c : nat) (args : list val) {struct k} : res val :=
-    match k with
-    | O => Fuel
-    | S k' =>
+  Definition construct (k' : nat) (st : state) (c : nat) (args : list val) : res val :=
       match nth_error (classes st) c with
       | None => Crash 3
       | Some cd =>
@@ -695,58 +772,7 @@ Section Stmt.
             Ok inst (pop_frame s3)
           end
         end
-      end
-    end
-
-  (* evalExecBlock + evalStmtBlock + handleExceptionSignal *)
-  with exec_exec_block (k : nat) (st : state) (fd : fundef) (args : list val) {struct k} : res val :=
-    match k with
-    | O => Fuel
-    | S k' =>
-      let entry_depth := length (stack st) in
-      let st0 := begin_scope st in
-      let r :=
-        let s1 := match top_kind st0, top_this st0 with
-                  | 2, Some this => match vm_declare st0 ID_THIS this true with Ok _ s => s | _ => st0 end
-                  | _, _ => st0
-                  end in
-        if negb (length args =? length (fd_params fd))%nat then Er (ERun E_PARAMLEN) s1 else
-        let! (_, s2) := declare_params s1 (fd_params fd) args in
-        let body_r := let! (_, s3) := hoist s2 (fd_body fd) in exec_block k' s3 (fd_body fd) in
-        match body_r with
-        | Er e s4 =>
-          let exc := match e with
-                     | EExc v => Some v
-                     | ERun c => Some (VExc (MRun c))
-                     | EGo m => Some (VExc m)
-                     | _ => None
-                     end in
-          match exc with
-          | None => Er e s4
-          | Some xv =>
-            match exc_class s4 xv with
-            | None => Er e s4
-            | Some cn =>
-              (fix handlers (hs : catches) : res val :=
-                 match hs with
-                 | [] => Er e s4
-                 | (hn, hb) :: tl =>
-                   if hn =? cn then
-                     let s5 := push_frame (unwind s4 entry_depth) 3 (Some xv) in
-                     let! (_, s6) := exec_block k' s5 hb in
-                     Ok (match top_ret s6 with Some r => r | None => VNull end) (pop_frame s6)
-                   else handlers tl
-                 end) (fd_catch fd)
-            end
-          end
-        | r => r
-        end in
-      match r with
-      | Ok v s => Ok v (end_scope s)
-      | Er e s => Er e (end_scope s)
-      | r => r
-      end
-    end.
+      end.
 
   (* Function.Exec on a user function *)
   Definition call_fun (k : nat) (st : state) (f : nat) (args : list val) : res val :=
